@@ -177,7 +177,11 @@ def explode(cfg, trace):
                 facts.append(("gorder", " ".join(g.split(":")[0] for g in gs)))
                 facts.append(("gsets", " ".join(sorted(g.split(":")[0] + ":" + ",".join(sorted(g.split(":")[1].split(","))) for g in gs))))
                 facts.append(("glists", " ".join(gs)))
-            elif k in ("has", "probe", "panic", "r", "sched", "error"):
+            elif k == "has":
+                facts.append(("has", l))                                    # has e c <world> <registry>
+                if t[3] == "1":
+                    facts.append(("hasw", f"{t[1]} {t[2]}"))                 # the component is in the world
+            elif k in ("probe", "panic", "r", "sched", "error"):
                 facts.append((k, l))
             # endframe / scenario lines carry nothing
         if btype == "frame":
@@ -279,7 +283,7 @@ CLASS = {
     "C13": dict(mode="seq", cls=_cls({**SCRIPT, "ix": "out", "raw": "up", "ivi": "up", **_ivo(REF_CONDS | {"accby"}, "out"), "ivo": "up",
                                       "ps": "up", "panic": "up"})),
     # recipients
-    "C14": dict(mode="block", cls=_cls({**SCRIPT, "has": "up", "evb": "up", "ps": "out", "pp": "out", "rcp": "out", "dpc": "out", "dpd": "out",
+    "C14": dict(mode="block", cls=_cls({**SCRIPT, "hasw": "up", "evb": "up", "ps": "out", "pp": "out", "rcp": "out", "dpc": "out", "dpd": "out",
                                         "cp": "out", "panic": "up"})),
     # reader
     "C15": dict(mode="seq", cls=_cls({**SCRIPT, "raw": "out", "panic": "up"})),
@@ -297,7 +301,7 @@ CLASS["C17"] = dict(mode="block", cls=_cls({**SCRIPT}, default="up"))
 
 
 RANK = {"op": 0, "fr": 0, "ft": 0, "sched": 0, "react": 0.5, "invorder": 0.6, "ix": 1, "raw": 1, "ivi": 1, "r": 1, "error": 1, "evb": 1.5, "dk": 2, "dpc": 2, "dpd": 2, "ck": 2, "cp": 2,
-        "cd": 2, "probe": 3, "pp": 4, "ps": 4, "pv": 4, "pvd": 4, "pd": 4, "pe": 4, "sup": 4, "has": 5, "gorder": 6, "gsets": 6, "glists": 6,
+        "cd": 2, "probe": 3, "pp": 4, "ps": 4, "pv": 4, "pvd": 4, "pd": 4, "pe": 4, "sup": 4, "has": 5, "hasw": 5, "gorder": 6, "gsets": 6, "glists": 6,
         "evalorder": 7, "rcp": 7, "panic": 8}
 
 
